@@ -191,23 +191,295 @@ Proof.
   split; [vm_compute; reflexivity|]. split; [reflexivity|]. split; left; reflexivity.
 Qed.
 
-(* D6: nullable -> NOT NULL on a column that has a default: nothing is asked (find_missing_fill_with skips
-   defaulted columns), the plan is written without fill_with, and the loader's validate_migration_plan
-   rejects that very file from then on: every command fails *)
+(* ------------------------------------------------------------------ what revision writes can be loaded again *)
+(* an action validate_migration_plan rejects with MissingFillWith *)
+Definition unfilled (a : action) : bool :=
+  match a with
+  | AddColumn _ c None => (negb (c_nullable c) && is_none (c_default c))%bool
+  | ModifyColumnNullable _ _ false None => true
+  | _ => false
+  end.
+(* an action on which validate_migration_plan looks at enum values *)
+Definition enum_free (a : action) : bool :=
+  match a with
+  | AddColumn _ c _ => match c_type c with TEnum _ _ => false | _ => true end
+  | ModifyColumnType _ _ ty _ => match ty with TEnum _ _ => false | _ => true end
+  | _ => true
+  end.
+
+Lemma validate_enum_value_cases : forall v vs t c,
+  validate_enum_value v vs t c = Ok tt \/ exists x, validate_enum_value v vs t c = Err (VInvalidEnumDefault t c x).
+Proof.
+  intros v vs t c. unfold validate_enum_value. destruct (extract_enum_value v) as [x|]; [|left; reflexivity].
+  destruct (mem_str x (ev_variant_names vs)); [left; reflexivity|right; eauto].
+Qed.
+
+Lemma first_err_enum_cases : forall (fw : list (string * string)) vs t c,
+  first_err (fun kv => validate_enum_value (snd kv) vs t c) fw = Ok tt
+  \/ exists x, first_err (fun kv => validate_enum_value (snd kv) vs t c) fw = Err (VInvalidEnumDefault t c x).
+Proof.
+  induction fw as [|kv r IH]; intros vs t c; [left; reflexivity|].
+  cbn [first_err]. destruct (validate_enum_value_cases (snd kv) vs t c) as [H|[x H]]; rewrite H; [apply IH|right; eauto].
+Qed.
+
+Lemma validate_action_cases : forall a,
+  unfilled a = false ->
+  validate_action a = Ok tt
+  \/ (enum_free a = false /\ exists t c x, validate_action a = Err (VInvalidEnumDefault t c x)).
+Proof.
+  intros a Hu. destruct a as [| |t c f| | |t c ty f|t c n f| | | | | |]; try (left; reflexivity).
+  - (* AddColumn *)
+    cbn [validate_action enum_free].
+    assert (Hc : (negb (c_nullable c) && match c_default c with None => true | _ => false end
+                  && match f with None => true | _ => false end)%bool = false).
+    { cbn [unfilled] in Hu. destruct f; [rewrite Bool.andb_false_r; reflexivity|].
+      unfold is_none in Hu. rewrite Bool.andb_true_r. exact Hu. }
+    rewrite Hc. destruct (c_type c) as [| | | | |en vs]; try (left; reflexivity).
+    unfold vseq.
+    destruct f as [fv|].
+    + destruct (validate_enum_value_cases fv vs t (c_name c)) as [H|[x H]]; rewrite H; [|right; split; [reflexivity|do 3 eexists; reflexivity]].
+      destruct (c_default c) as [d|]; [|left; reflexivity].
+      destruct (validate_enum_value_cases (default_to_sql d) vs t (c_name c)) as [H2|[x H2]]; rewrite H2; [left; reflexivity|right; split; [reflexivity|do 3 eexists; reflexivity]].
+    + destruct (c_default c) as [d|]; [|left; reflexivity].
+      destruct (validate_enum_value_cases (default_to_sql d) vs t (c_name c)) as [H2|[x H2]]; rewrite H2; [left; reflexivity|right; split; [reflexivity|do 3 eexists; reflexivity]].
+  - (* ModifyColumnType *)
+    cbn [validate_action enum_free]. destruct f as [fw|]; [|left; reflexivity].
+    destruct ty as [| | | | |en vs]; try (left; reflexivity).
+    destruct (first_err_enum_cases fw vs t c) as [H|[x H]]; rewrite H; [left; reflexivity|right; split; [reflexivity|do 3 eexists; reflexivity]].
+  - (* ModifyColumnNullable *)
+    cbn [validate_action]. cbn [unfilled] in Hu.
+    destruct n; [left; reflexivity|]. destruct f; [left; reflexivity|discriminate Hu].
+Qed.
+
+Lemma validate_plan_cases : forall acts,
+  (forall a, In a acts -> unfilled a = false) ->
+  first_err validate_action acts = Ok tt
+  \/ (exists a, In a acts /\ enum_free a = false) /\ exists t c x, first_err validate_action acts = Err (VInvalidEnumDefault t c x).
+Proof.
+  induction acts as [|a r IH]; intros Hu; [left; reflexivity|].
+  cbn [first_err].
+  destruct (validate_action_cases a (Hu a (or_introl eq_refl))) as [H|[He [t [c [x H]]]]]; rewrite H.
+  - destruct (IH (fun b Hb => Hu b (or_intror Hb))) as [H2|[[b [Hb He]] H2]]; [left; exact H2|].
+    right. split; [exists b; split; [right; exact Hb|exact He]|exact H2].
+  - right. split; [exists a; split; [left; reflexivity|exact He]|eauto].
+Qed.
+
+(* --- the fill pipeline of cmd_revision leaves nothing unfilled --- *)
+Lemma collect_has_addcolumn : forall l s t c,
+  In (AddColumn t c None) l -> (negb (c_nullable c) && is_none (c_default c))%bool = true ->
+  exists v, In (t, c_name c, v) (collect_fills l s).
+Proof.
+  induction l as [|a r IH]; intros s t c Hin Hc; [contradiction|].
+  destruct Hin as [->|Hin].
+  - cbn [collect_fills]. change (is_none (@None string)) with true. rewrite Bool.andb_true_r. rewrite Hc. eexists. left. reflexivity.
+  - destruct (IH s t c Hin Hc) as [v Hv]. exists v.
+    cbn [collect_fills]. destruct a; try exact Hv.
+    + destruct (negb (c_nullable column) && is_none (c_default column) && is_none fill_with)%bool; [right; exact Hv|exact Hv].
+    + destruct (negb nullable && is_none fill_with)%bool; [|exact Hv].
+      destruct (lookup_col s table column) as [cc|]; [|right; exact Hv].
+      destruct (is_none (c_default cc)); [right; exact Hv|exact Hv].
+Qed.
+
+Lemma collect_has_nullable : forall l s t col,
+  In (ModifyColumnNullable t col false None) l ->
+  (exists v, In (t, col, v) (collect_fills l s))
+  \/ (exists c d, lookup_col s t col = Some c /\ c_default c = Some d).
+Proof.
+  induction l as [|a r IH]; intros s t col Hin; [contradiction|].
+  destruct Hin as [->|Hin].
+  - cbn [collect_fills negb is_none andb].
+    destruct (lookup_col s t col) as [c|] eqn:Hl.
+    + destruct (c_default c) as [d|] eqn:Hd; cbn [is_none].
+      * right. eauto.
+      * left. eexists. left. reflexivity.
+    + left. eexists. left. reflexivity.
+  - destruct (IH s t col Hin) as [[v Hv]|Hd]; [|right; exact Hd]. left. exists v.
+    cbn [collect_fills]. destruct a; try exact Hv.
+    + destruct (negb (c_nullable column) && is_none (c_default column) && is_none fill_with)%bool; [right; exact Hv|exact Hv].
+    + destruct (negb nullable && is_none fill_with)%bool; [|exact Hv].
+      destruct (lookup_col s table column) as [cc|]; [|right; exact Hv].
+      destruct (is_none (c_default cc)); [right; exact Hv|exact Hv].
+Qed.
+
+Lemma fv_get_found : forall t c v fv m, In (t, c, v) m -> fv_get t c (fv ++ m) <> None.
+Proof.
+  intros t c v fv m Hin. unfold fv_get.
+  destruct (find (fun e => (String.eqb (fst (fst e)) t && String.eqb (snd (fst e)) c)%bool) (rev (fv ++ m))) eqn:Hf; [discriminate|].
+  exfalso. pose proof (find_none _ _ Hf (t, c, v)) as Hn.
+  assert (Hi : In (t, c, v) (rev (fv ++ m))) by (rewrite <- in_rev; apply in_or_app; right; exact Hin).
+  specialize (Hn Hi). cbn [fst snd] in Hn. rewrite !String.eqb_refl in Hn. discriminate Hn.
+Qed.
+
+(* fine after the prompts, or a NOT NULL change of a column that has a default in the baseline *)
+Definition ok_or_defaulted (baseline : schema) (x : action) : Prop :=
+  unfilled x = false
+  \/ exists t col c d, x = ModifyColumnNullable t col false None /\ lookup_col baseline t col = Some c /\ c_default c = Some d.
+
+Lemma unfilled_shape : forall a, unfilled a = true ->
+  (exists t c, a = AddColumn t c None /\ (negb (c_nullable c) && is_none (c_default c))%bool = true)
+  \/ (exists t col, a = ModifyColumnNullable t col false None).
+Proof.
+  intros a H. destruct a as [| |t c f| | |t c ty f|t c n f| | | | | |]; try discriminate H.
+  - destruct f; [discriminate H|]. left. eauto.
+  - destruct n; [discriminate H|]. destruct f; [discriminate H|]. right. eauto.
+Qed.
+
+Lemma no_prompt_ok : forall a0 baseline x,
+  collect_fills a0 baseline = [] -> In x a0 -> ok_or_defaulted baseline x.
+Proof.
+  intros a0 baseline x Hc Hin. destruct (unfilled x) eqn:Hu; [|left; exact Hu].
+  destruct (unfilled_shape x Hu) as [[t [c [-> Hcc]]]|[t [col ->]]].
+  - destruct (collect_has_addcolumn _ baseline _ _ Hin Hcc) as [v Hv]. rewrite Hc in Hv. contradiction.
+  - destruct (collect_has_nullable _ baseline _ _ Hin) as [[v Hv]|[c [d [Hl Hd]]]].
+    + rewrite Hc in Hv. contradiction.
+    + right. exists t, col, c, d. auto.
+Qed.
+
+Lemma prompted_ok : forall a0 baseline fv x,
+  In x (map (apply_fill (fv ++ collect_fills a0 baseline)) a0) -> ok_or_defaulted baseline x.
+Proof.
+  intros a0 baseline fv x Hin. apply in_map_iff in Hin. destruct Hin as [y [<- Hy]].
+  set (m := collect_fills a0 baseline).
+  destruct (unfilled y) eqn:Hu.
+  - destruct (unfilled_shape y Hu) as [[t [c [-> Hcc]]]|[t [col ->]]].
+    + destruct (collect_has_addcolumn _ baseline _ _ Hy Hcc) as [v Hv].
+      pose proof (fv_get_found t (c_name c) v fv m Hv) as Hf.
+      left. cbn [apply_fill]. destruct (fv_get t (c_name c) (fv ++ m)); [reflexivity|contradiction].
+    + destruct (collect_has_nullable _ baseline _ _ Hy) as [[v Hv]|[c [d [Hl Hd]]]].
+      * pose proof (fv_get_found t col v fv m Hv) as Hf.
+        left. cbn [apply_fill]. destruct (fv_get t col (fv ++ m)); [reflexivity|contradiction].
+      * cbn [apply_fill]. destruct (fv_get t col (fv ++ m)); [left; reflexivity|].
+        right. exists t, col, c, d. auto.
+  - left. destruct y as [| |t c f| | |t c ty f|t c n f| | | | | |]; try exact Hu.
+    + cbn [apply_fill]. destruct f; [exact Hu|]. destruct (fv_get t (c_name c) (fv ++ m)); [reflexivity|exact Hu].
+    + cbn [apply_fill]. destruct f; [exact Hu|]. destruct (fv_get t c (fv ++ m)); [|exact Hu]. destruct n; reflexivity.
+Qed.
+
+Lemma enum_fills_keep : forall l i me x,
+  In x (apply_enum_fills i l me) -> In x l \/ unfilled x = false.
+Proof.
+  induction l as [|a r IH]; intros i me x Hin; [contradiction|].
+  cbn [apply_enum_fills] in Hin. destruct Hin as [<-|Hin].
+  - destruct a; try (left; left; reflexivity).
+    destruct (find (fun e => Nat.eqb (fst e) i) me) as [[k unc]|]; [|left; left; reflexivity].
+    destruct new_type as [| | | | |en vs]; try (left; left; reflexivity).
+    destruct vs as [[|f0 fr]|]; try (left; left; reflexivity). right. reflexivity.
+  - destruct (IH _ _ _ Hin) as [H|H]; [left; right; exact H|right; exact H].
+Qed.
+
+Lemma default_fills : forall baseline x, ok_or_defaulted baseline x -> unfilled (default_as_fill baseline x) = false.
+Proof.
+  intros baseline x [Hu|[t [col [c [d [-> [Hl Hd]]]]]]].
+  - destruct x as [| |t c f| | |t c ty f|t c n f| | | | | |]; try exact Hu.
+    cbn [default_as_fill]. destruct n; [reflexivity|]. destruct f; [reflexivity|discriminate Hu].
+  - cbn [default_as_fill]. rewrite Hl, Hd. reflexivity.
+Qed.
+
+Lemma revision_wrote_filled : forall P m f env file p,
+  cmd_revision P m f env = Ok (RevWrote file p) -> forall a, In a (p_actions p) -> unfilled a = false.
+Proof.
+  intros P m f env file p. unfold cmd_revision.
+  destruct (load_models P) as [models|e]; [|intros H; discriminate H].
+  destruct (load_migrations P) as [plans|e]; [|intros H; discriminate H].
+  unfold plan_next.
+  destruct (replay plans) as [baseline|e]; [|intros H; discriminate H].
+  destruct (diff_actions baseline models) as [acts|e]; [|intros H; discriminate H].
+  cbn [p_actions p_version].
+  destruct (is_nil acts); [intros H; discriminate H|].
+  destruct (refuses acts); [intros H; discriminate H|].
+  set (fv := parse_fill_with_args f). set (a0 := map (apply_fill fv) acts).
+  assert (Hfinal : forall a1 a2, (forall x, In x a1 -> ok_or_defaulted baseline x) ->
+                                 (forall x, In x a2 -> In x a1 \/ unfilled x = false) ->
+                                 forall a, In a (map (default_as_fill baseline) a2) -> unfilled a = false).
+  { intros a1 a2 H1 H2 a Hin. apply in_map_iff in Hin. destruct Hin as [x [<- Hx]].
+    apply default_fills. destruct (H2 x Hx) as [Hi|Hu]; [apply H1; exact Hi|left; exact Hu]. }
+  destruct (collect_fills a0 baseline) as [|mi mr] eqn:Hmiss.
+  - assert (H1 : forall x, In x a0 -> ok_or_defaulted baseline x) by (intros x Hx; exact (no_prompt_ok a0 baseline x Hmiss Hx)).
+    destruct (find_missing_enum_fill_with (mkPlan "" None None 0 a0) baseline) as [|ei er].
+    + intros H a Hin. inversion H; subst. cbn [p_actions] in Hin.
+      exact (Hfinal a0 a0 H1 (fun x Hx => or_introl Hx) a Hin).
+    + destruct (re_tty env); [|intros H; discriminate H].
+      intros H a Hin. inversion H; subst. cbn [p_actions] in Hin.
+      exact (Hfinal a0 _ H1 (fun x Hx => enum_fills_keep _ _ _ x Hx) a Hin).
+  - destruct (re_tty env); [|intros H; discriminate H].
+    set (a1 := map (apply_fill (fv ++ mi :: mr)) a0).
+    assert (H1 : forall x, In x a1 -> ok_or_defaulted baseline x).
+    { intros x Hx. unfold a1 in Hx. rewrite <- Hmiss in Hx. exact (prompted_ok a0 baseline fv x Hx). }
+    destruct (find_missing_enum_fill_with (mkPlan "" None None 0 a1) baseline) as [|ei er].
+    + intros H a Hin. inversion H; subst. cbn [p_actions] in Hin.
+      exact (Hfinal a1 a1 H1 (fun x Hx => or_introl Hx) a Hin).
+    + intros H a Hin. inversion H; subst. cbn [p_actions] in Hin.
+      exact (Hfinal a1 _ H1 (fun x Hx => enum_fills_keep _ _ _ x Hx) a Hin).
+Qed.
+
+(* since fix 446c8b4: what revision writes never lacks a fill value; the loader accepts it, except for an enum value
+   it does not check (a --fill-with value for a new enum column, or an enum without values) *)
+Theorem revision_output_loadable : forall P m f env file p,
+  cmd_revision P m f env = Ok (RevWrote file p) ->
+  (forall a, In a (p_actions p) -> unfilled a = false)
+  /\ (validate_migration_plan p = Ok tt
+      \/ ((exists a, In a (p_actions p) /\ enum_free a = false)
+          /\ exists t c x, validate_migration_plan p = Err (VInvalidEnumDefault t c x)))
+  /\ ((forall a, In a (p_actions p) -> enum_free a = true) -> validate_migration_plan p = Ok tt).
+Proof.
+  intros P m f env file p H.
+  pose proof (revision_wrote_filled _ _ _ _ _ _ H) as Hu.
+  split; [exact Hu|].
+  unfold validate_migration_plan.
+  destruct (validate_plan_cases (p_actions p) Hu) as [Hok|[[a [Ha He]] Herr]].
+  - split; [left; exact Hok|intros _; exact Hok].
+  - split; [right; split; [exists a; split; assumption|exact Herr]|].
+    intros Hall. rewrite (Hall a Ha) in He. discriminate He.
+Qed.
+
+(* and then every command keeps working on the extended history *)
+Lemma validate_files_write : forall name p fs,
+  validate_files fs = Ok tt -> validate_migration_plan p = Ok tt -> validate_files (write_file name p fs) = Ok tt.
+Proof.
+  induction fs as [|[n q] r IH]; intros Hv Hp.
+  - cbn [write_file validate_files]. rewrite Hp. reflexivity.
+  - cbn [validate_files] in Hv. destruct (validate_migration_plan q) as [[]|e] eqn:Hq; [|discriminate Hv].
+    cbn [write_file]. destruct (String.eqb n name).
+    + cbn [validate_files]. rewrite Hp. exact Hv.
+    + cbn [validate_files]. rewrite Hq. apply IH; assumption.
+Qed.
+
+Theorem revision_keeps_history_loadable : forall P m f env file p,
+  cmd_revision P m f env = Ok (RevWrote file p) ->
+  validate_migration_plan p = Ok tt ->
+  validate_files (pj_migrations (step_revision P m f env)) = Ok tt
+  /\ exists plans, load_migrations (step_revision P m f env) = Ok plans.
+Proof.
+  intros P m f env file p H Hp.
+  destruct (revision_wrote _ _ _ _ _ _ H) as [plans [Hl _]].
+  assert (Hv : validate_files (pj_migrations P) = Ok tt).
+  { unfold load_migrations in Hl. destruct (validate_files (pj_migrations P)) as [[]|e]; [reflexivity|discriminate Hl]. }
+  assert (Hv2 : validate_files (pj_migrations (step_revision P m f env)) = Ok tt).
+  { unfold step_revision. rewrite H. cbn [project_after pj_migrations]. apply validate_files_write; assumption. }
+  split; [exact Hv2|]. unfold load_migrations. rewrite Hv2. eauto.
+Qed.
+
+(* the D6 witness: nullable -> NOT NULL on a column that has a default now records the default as fill value *)
 Definition dcol (nullable : bool) : column_def :=
   mkCol "email" (TSimple Text) nullable (Some (DStr "'x'")) None None None None None.
 Definition P_defaulted : project :=
   mkProject default_config [("user.json", mkTable "user" None [kcol "id"; dcol false] [])]
             [("0001_init.vespertide.json", mkPlan "id-1" (Some "init") None 1 [CreateTable "user" [kcol "id"; dcol true] []])].
 
-Theorem revision_output_loadable_refuted :
+(* (R) what remains: a fill value for a new enum column is written unchecked *)
+Definition ecol : column_def :=
+  mkCol "st" (TEnum "st" (EVString ["a"; "b"])) false None None None None None None.
+Definition P_enum : project :=
+  mkProject default_config [("user.json", mkTable "user" None [kcol "id"; ecol] [])]
+            [("0001_init.vespertide.json", mkPlan "id-1" (Some "init") None 1 [CreateTable "user" [kcol "id"] []])].
+
+Theorem revision_enum_fill_unchecked_refuted :
   exists P m f env file p,
     cmd_revision P m f env = Ok (RevWrote file p)
-    /\ p_actions p = [ModifyColumnNullable "user" "email" false None]
-    /\ cmd_diff (step_revision P m f env) = Err (ELoadMigration file (VMissingFillWith "user" "email"))
-    /\ cmd_status (step_revision P m f env) = Err (ELoadMigration file (VMissingFillWith "user" "email"))
-    /\ cmd_log (step_revision P m f env) = Err (ELoadMigration file (VMissingFillWith "user" "email")).
+    /\ p_actions p = [AddColumn "user" ecol (Some "zzz")]
+    /\ validate_migration_plan p = Err (VInvalidEnumDefault "user" "st" "zzz")
+    /\ cmd_diff (step_revision P m f env) = Err (ELoadMigration file (VInvalidEnumDefault "user" "st" "zzz")).
 Proof.
-  exists P_defaulted, "tighten", [], env0. do 2 eexists.
-  split; [vm_compute; reflexivity|]. split; [reflexivity|]. split; [|split]; vm_compute; reflexivity.
+  exists P_enum, "second", ["user.st=zzz"], env0. do 2 eexists.
+  split; [vm_compute; reflexivity|]. split; [reflexivity|]. split; vm_compute; reflexivity.
 Qed.
